@@ -175,7 +175,7 @@ PROPS = {
             {'engine': 'verus', 'name': 'fold', 'tier': 'quick', 'role': 'Fold::next = sequential left fold of the iteration, one result iff non-empty, timestamp = max'},
             {'engine': 'verus', 'name': 'keyed_fold', 'tier': 'quick', 'role': 'KeyedFold::{process_item,next}: per iteration exactly one result per key that occurs = sequential left fold of the key\'s values from a clone of init (lemma_run_per_key), stamped with the key\'s max timestamp; any HashMap drain order'},
             {'engine': 'verus', 'name': 'two_phase', 'tier': 'quick', 'role': 'lemma: local-then-global fold over any partition equals the sequential fold (assoc/commutative laws as hypotheses)'},
-            {'engine': 'verus', 'name': 'aggregators', 'tier': 'quick', 'role': 'the (local, global) closure pairs of group_by_avg / group_by_sum / group_by_count: local adds one value (and counts it), global merges partial sums and adds partial counts; lemma: merging the totals of two runs == total of the concatenation (associative +)'},
+            {'engine': 'verus', 'name': 'aggregators', 'tier': 'quick', 'role': 'the closures of group_by_reduce / reduce / reduce_assoc (first value starts, f folds the rest; partial results merged with f, an empty partial changes nothing) and the (local, global) closure pairs of group_by_avg / group_by_sum / group_by_count: local adds one value (and counts it), global merges partial sums and adds partial counts; lemma: merging the totals of two runs == total of the concatenation (associative +)'},
         ],
         'explanation': 'Verus proof on the real Fold::next that each iteration yields exactly the sequential left fold of its items (user closure = assumed function), plus a pure lemma that the '
                        'two-phase (local pre-aggregation, then global) form equals the sequential fold for every partition of the input, empty partitions included.',
